@@ -418,6 +418,10 @@ impl Pager {
             let evicted_id = evicted.page_number();
 
             if evicted.is_dirty() {
+                // Write-ahead rule: the log records that describe the changes on this page (they
+                // may still sit in the log buffer, the log is only forced at commit) must be on
+                // disk before the page is, or a crash leaves changes that nothing can undo.
+                self.wal.flush()?;
                 let page_size = self.page_size();
                 evicted.with_bytes_mut(|bytes| self.write_block(evicted_id, &bytes, page_size))?;
             };
